@@ -134,8 +134,17 @@ where
     let tail: usize = kani::any();
     kani::assume(tail < W::NBYTES && nwords * W::NBYTES + tail <= CAPB);
     let total = nwords * W::NBYTES + tail;
-    let mut a = WordAdapter::<W, _>::new(std::io::Cursor::new(&data[..total]));
-    kani::assert(matches!(a.word_pos(), Ok(0)), "OBS c11.pos: a new adapter is at word 0");
+    // arbitrary pre-state of the wrapped stream: any byte position, aligned or not (a read that failed on a
+    // ragged tail leaves the stream at an unspecified position; a seek must not depend on where it starts)
+    let pos0: usize = kani::any();
+    kani::assume(pos0 <= total);
+    let mut cur = std::io::Cursor::new(&data[..total]);
+    cur.set_position(pos0 as u64);
+    let mut a = WordAdapter::<W, _>::new(cur);
+    if pos0 == 0 {
+        kani::assert(matches!(a.word_pos(), Ok(0)), "OBS c11.pos: a new adapter is at word 0");
+    }
+    kani::cover!(pos0 % W::NBYTES != 0 || W::NBYTES == 1, "c11.pos reachable (seek from an unaligned byte position)");
     let i: u64 = kani::any();
     kani::assume(i <= nwords as u64);
     kani::assert(a.set_word_pos(i).is_ok(), "OBS c11.pos: seeking to a word inside the stream succeeds");
